@@ -54,6 +54,17 @@ func exprAlphabet() []tokSym {
 	}
 }
 
+// stmtAlphabet: statement-level symbols with a single expression atom, for
+// long keyword / bracket / separator sequences.
+func stmtAlphabet() []tokSym {
+	return []tokSym{
+		{"IF", model.KwIf}, {"ELSE", model.KwElse}, {"WHILE", model.KwWhile}, {"FOR", model.KwFor}, {"FUN", model.KwFun}, {"VAR", model.KwVar},
+		{"PRINT", model.KwPrint}, {"RETURN", model.KwReturn}, {"BREAK", model.KwBreak},
+		{"LEFT_PAREN", "("}, {"RIGHT_PAREN", ")"}, {"LEFT_BRACE", "{"}, {"RIGHT_BRACE", "}"}, {"SEMICOLON", ";"}, {"COMMA", ","}, {"EQUAL", "="},
+		{"IDENT", "a"}, {"NUMBER", "1"},
+	}
+}
+
 var (
 	gramG, gramGp *model.Grammar
 	gramErr       error
@@ -142,6 +153,13 @@ func renderToks(syms []tokSym, perLine bool) (string, []int, int) {
 // prefix (accepted or incomplete) and for every dead one-token extension.
 // Subtrees are distributed over the shards by their first two symbols.
 func walkTokens(c *fw.Ctx, alpha []tokSym, maxLen int, visit func(tc tokCase)) (viable, dead, ood int64) {
+	return walkTokensExt(c, alpha, maxLen, nil, visit)
+}
+
+// walkTokensExt additionally extends every dead one-token extension by each
+// symbol of ext (and by that symbol followed by ';'): the text stays dead at
+// the same token, so the first diagnostic must not move.
+func walkTokensExt(c *fw.Ctx, alpha []tokSym, maxLen int, ext []tokSym, visit func(tc tokCase)) (viable, dead, ood int64) {
 	if err := loadGrammars(); err != nil {
 		c.HarnessError("grammar: " + err.Error())
 		return
@@ -217,6 +235,12 @@ func walkTokens(c *fw.Ctx, alpha []tokSym, maxLen int, visit func(tc tokCase)) (
 				c.R.States++
 				c.R.Transitions++
 				visit(tokCase{Syms: append(append([]tokSym{}, seq...), s), Accepted: false, Dead: d})
+				for _, u := range ext {
+					c.R.States += 2
+					c.R.Transitions += 2
+					visit(tokCase{Syms: append(append([]tokSym{}, seq...), s, u), Accepted: false, Dead: d})
+					visit(tokCase{Syms: append(append([]tokSym{}, seq...), s, u, tokSym{"SEMICOLON", ";"}), Accepted: false, Dead: d})
+				}
 			}
 		}
 	}
